@@ -23,7 +23,7 @@ def simcheck(design, text, technique="stateful property-based testing (rapid) of
     return dict(engine="sim", category="exploration", design=design, technique=technique, text=text, note=SIM_NOTE)
 
 CHECKS.update({
-    "C01": simcheck("§4 C01", "Generated races of conflicting completions, creations, reads, searches, registrations, claims, time-outs, faults and crashes on 3 ids; oracle I1-I4: rows never vanish, creation half frozen, one transition out of pending, then frozen; every promise leaving the server (responses, search hits, claim payloads, notifications) agrees with the stored row at that instant."),
+    "C01": simcheck("§4 C01", "Generated races of conflicting completions, creations, reads, searches, registrations, claims, time-outs, faults and crashes on 3 ids; oracle I1-I4: rows never vanish, creation half frozen, one transition out of pending, then frozen; every promise leaving the server (responses, search hits, claim payloads, notifications) agrees with the stored row at that instant; I5: no promise leaves as pending whose completion was committed before the request was submitted or by the request itself."),
     "C02": simcheck("§4 C02", "Generated workloads of all 17 request kinds over shared ids under every configuration knob and schedule (holds, batches, faults). Oracle (self-differential, atomic-snapshot explanation): every request's response and own effect must be reproduced by running the real coroutine alone on a committed snapshot of its window at a clock value of its window; failed requests must have left nothing or exactly the sequential effect; an effect sits in one transaction; a time-out the explaining run relies on must really be stored by the time of the response; every lock / schedule / task / registration record a response carries must equal a stored row of its window (R1, judged against the database, so also sequentially-wrong answers are seen); every write of the four self-contained background sweeps must be what that sweep writes when run alone on the state it found (an effect acknowledged to a request must not be undone by a sweep deciding on stale rows; F20 and F21 are the listed cases); and, since the reference is the sequential SPEC, the statement-derived oracles of C01, C03-C05, C07-C10 count on this workload as well (findings listed under those properties are left to their checks). A pass is a constructive linearization. Blind to sequentially-wrong behaviour by design (covered by C03/C04/C07/C09/C10). Found F15 (repaired).",
                     technique="stateful property-based testing (rapid) with a differential oracle: concurrent run vs. the same coroutine run alone on the per-transaction snapshot"),
     "C03": simcheck("§4 C03", "Generated histories of create / create-with-task / complete on 1-2 ids crossed with key, strict, state, timing around the deadline, plus exact retries (after response, after lost response, racing, after crash); oracle: status table written from the statement and justified by a committed state inside the request window; at most one creation, one completion and one invocation task per id; no repeat changes a row, and a time-out that a create/complete lets take effect is exactly the time-out (R4). Tier (b): sequential histories of create / create-with-task / complete on one id through HTTP and gRPC of a real server, judged against an executable reference model of the statement and the database file (the path of key, strict flag and requested state through both front ends)."),
@@ -36,7 +36,7 @@ CHECKS.update({
     "C08": simcheck("§4 C08", "Generated routed/unrouted creations, create-with-task, registrations, completions and claims with the real sender worker and every hand-off outcome, router failures and task batch sizes; oracle B1-B6: invocation task born in the promise's transaction iff the tags route (reference predicate), outstanding tasks finished in the completing transaction, dispatch cycles pick only unclaimed tasks, one per root, none with an enqueued/claimed sibling, enqueued only after success, failed hand-off => attempt+1 and later retry, notify finished after its first attempt, message names (id,counter,links), and every task transition has a cause. Found F18 and F19 (repaired)."),
     "C09": simcheck("§4 C09", "Generated acquire/release/heartbeat of 3 executions x 2 processes on 2 resources with ttl 0..3s, sweeps and clock steps onto lease ends; oracle L1-L5: every response decided on the pre-state of its transaction by a reference model from the statement; the locks table changes only by the holder's release / re-acquire, its process's heartbeat (lease = clock + ttl), or expiry at a tick >= lease end."),
     "C10": simcheck("§4 C10", "Generated schedules (cron grammar, id templates, an id with markup characters, promise tags that route so that firings take the create-with-task path), clock jumps over many occurrences, schedule batch sizes, create/delete/re-create and user-created occurrence promises racing the cycle, faults and crashes; oracle S1-S4 with an independent robfig/cron computation and reference template expansion: occurrences fire once, in order, never early, promise + advance in one transaction, correct promise fields, nothing fires for a deleted incarnation's later occurrences; create/delete answers justified by the stored schedule of the request window (idempotent by key)."),
-    "C11": simcheck("§4 C11", "Phase 1 builds a reachable backlog without background work, the clock jumps, the kernel restarts with all five background coroutines (registration order permuted) and a configuration drawn over the documented ranges down to batch sizes and coroutine pool of one; a finite failure phase; then cycles (clock + signal timeout, ticks until settled). Oracle: the statement's quiescence predicates (each compared with the clock of an earlier cycle) hold once a bound computed from all pending work / batch sizes has passed, every cycle settles, every background coroutine keeps being started while idle, no task stays dispatchable beyond its bound. Workloads are kept below service capacity (schedule periods >= 60 s, scheduled promises not overdue) so that lag cannot grow without a defect. Tier (b), production queues: api + aio + sqlite store subsystem (real worker) with completion / submission queues of 1..8, sweeps with batches up to 100, clock owned by the harness: every Tick returns (watchdog) and the backlog of overdue promises and locks is worked off. Found F12 (repaired)."),
+    "C11": simcheck("§4 C11", "Phase 1 builds a reachable backlog without background work, the clock jumps, the kernel restarts with all five background coroutines (registration order permuted) and a configuration drawn over the documented ranges down to batch sizes and coroutine pool of one; a finite failure phase; then cycles (clock + signal timeout, ticks until settled). Oracle: the statement's quiescence predicates (each compared with the clock of an earlier cycle) hold once a bound computed from all pending work / batch sizes has passed, every cycle settles, every background coroutine keeps being started while idle, no task stays dispatchable beyond its bound, nor for four cycles in each of which the dispatch cycle had room left in its batch (the backlog includes worker flows: claimed root, awaited promise completed, resume task in init behind the busy root). Workloads are kept below service capacity (schedule periods >= 60 s, scheduled promises not overdue) so that lag cannot grow without a defect. Tier (b), production queues: api + aio + sqlite store subsystem (real worker) with completion / submission queues of 1..8, sweeps with batches up to 100, clock owned by the harness: every Tick returns (watchdog) and the backlog of overdue promises and locks is worked off. Found F12 (repaired)."),
     "C14": simcheck("§4 C14", "Generated populations, queries (wildcards, state subsets, tags, limits relative to the match count) and full cursor traversals through encode->token->decode with creations, completions, deletions and time-outs interleaved; oracle R1-R6: returned items match (id pattern, state mask, tags) in the state the page was computed from and carry that state, the cursor keeps the query, no duplicates, newest-first by sort id, page size and cursor presence (populations larger than the largest page included), the server's own cursor is accepted by the API layer both front ends use, everything that matched throughout a completed traversal is returned, overdue promises never reported pending, tampered tokens rejected; thorough tier: native coverage-guided fuzzing of the claims of well-signed forged cursors (the signing key is a constant) against the invariants the kernel asserts."),
     "C18": dict(engine="pollt", category="exploration", design="§5 C18",
                 technique="model-based stateful property testing (rapid state machine) of the production PollWorker loop on harness-owned channels against a reference model; plus a wire-level run with real SSE clients",
@@ -52,19 +52,19 @@ CHECKS.update({
                 note="(b) samples Go scheduler interleavings (not reproducible; its seed only selects sizes); a run whose clients or Loop do not return in 30 s is classified inconclusive, not a violation. Reading suggests a window between the a.done check in EnqueueSQE and Loop's exit (F16); it was not observed and is therefore not a listed finding."),
     "C13": dict(engine="proc", category="exploration", design="§5 C13",
                 technique="grammar + dictionary mutation fuzzing of a real server process over HTTP and gRPC, stateful poison-pill scenarios, restart on the same database, automatic bisection of a failing batch to a minimal request list",
-                text="A real `resonate serve` built from the tree. Generated batches of scenarios: valid skeletons of every endpoint of both protocols x one mutation (absent, empty, null, negative, 0, +-2^31, +-2^63, 1e100, wrong type, 64 KiB, hostile dictionary: JSON literals, template syntax, separators, receivers of every shape, URLs, cron oddities, forged/damaged cursors), stateful scenarios that store hostile data and trigger its later processing (routing, time-out, registration conversion + dispatch through the real sender/poll/http plugins, schedule firing), status walks: ordinary client behaviour the kernel must refuse (task / lock / promise / schedule / registration refusals) through both protocols; and overload rounds (servers started with an api queue or coroutine pool of 1, bursts of reads over both protocols: every request answered, process alive). After each batch: > 10 background cycles, health check, kill, restart on the same file, cycles, health check. Oracle: process alive and answering, background dispatch still alive (a probe promise routed to a poll listener is delivered after the batch), every request answered, certainly-invalid requests answered 400/InvalidArgument leaving no row, no 5xx for client input. A death or wedge is bisected on fresh servers to a minimal request list within a time budget (rapid's own shrinking is off for this engine). Found and repaired F2, F4, F7, F8, F9, F10 (and F6, F11 through C19/C18).",
+                text="A real `resonate serve` built from the tree. Generated batches of scenarios: valid skeletons of every endpoint of both protocols x one mutation (absent, empty, null, negative, 0, +-2^31, +-2^63, 1e100, wrong type, 64 KiB, hostile dictionary: JSON literals, template syntax, separators, receivers of every shape, URLs, cron oddities, forged/damaged cursors), stateful scenarios that store hostile data and trigger its later processing (routing, time-out, registration conversion + dispatch through the real sender/poll/http plugins incl. http receivers nothing listens on, schedule firing: schedules hostile in one dimension at a time - cron, id template, other fields - or in all, twins with a constant promise id; dictionaries are walked so that a batch of 40-90 scenarios uses distinct entries), status walks: ordinary client behaviour the kernel must refuse (task / lock / promise / schedule / registration refusals) through both protocols; and overload rounds (servers started with an api queue or coroutine pool of 1, bursts of reads over both protocols: every request answered, process alive). After each batch: > 10 background cycles, health check, kill, restart on the same file, cycles, health check. Oracle: process alive and answering, background dispatch still alive (a probe promise routed to a poll listener is delivered after the batch), every request answered, certainly-invalid requests answered 400/InvalidArgument leaving no row, no 5xx for client input. A death or wedge is bisected on fresh servers to a minimal request list within a time budget (rapid's own shrinking is off for this engine). Found and repaired F2, F4, F7, F8, F9, F10, F23 (and F6, F11 through C19/C18).",
                 note="Timing is wall-clock (background cycle 200 ms, waits of 2.6 s / 1.5 s); a slow machine can make a health check miss a deadline: such runs show as wedge reports whose bisection does not reproduce. The dictionary is the corpus; absence of further crashes is not established."),
     "C20": dict(engine="proc", category="exploration", design="§5 C20",
                 technique="property-based round-trip testing (rapid) against a real server process: write through one protocol, read through both, incl. messages received by a real poll listener, and again after a restart",
-                text="Unicode-heavy ids/keys/maps (separators, markup, quotes, spaces, dots, combining marks, astral, bidi/zero-width, template and JSON syntax, NUL via gRPC), data bytes of every value up to 4 KiB, time-outs over the whole int64 range; written via HTTP or gRPC and read via both: read, search, completion value, claim payload, invoke and notify bodies received by a real SSE listener, schedule read and the promises a schedule creates (two schedules with different tags falling due in the same sweep); everything re-read after a restart; ids differing only in case / whitespace / trailing slash / normalisation form / percent-encoding must be distinct promises; derived ids embed the client id verbatim. Found F3 (HTML-escaped schedule ids), repaired.",
+                text="Unicode-heavy ids/keys/maps (separators, markup, quotes, spaces, dots, combining marks, astral, bidi/zero-width, template and JSON syntax, NUL via gRPC), data bytes of every value up to 4 KiB, time-outs over the whole int64 range; written via HTTP or gRPC and read via both: read, search, completion value, claim payload, invoke and notify bodies received by a real SSE listener (one at a time, and 2-6 invocations / notifications dispatched together to their own listeners), schedule read and the promises a schedule creates (two schedules with different tags falling due in the same sweep); everything re-read after a restart; ids differing only in case / whitespace / trailing slash / normalisation form / percent-encoding must be distinct promises; derived ids embed the client id verbatim. Found F3 (HTML-escaped schedule ids), repaired.",
                 note="Idempotency keys written through HTTP are restricted to header-safe strings (HTTP trims and forbids control characters in header values: a transport limit, not the server's). Receiver descriptions are not returned by any read; they are checked through delivery to the listener they name."),
     "C15": dict(engine="front", category="exploration", design="§5 C15",
                 technique="exhaustive enumeration of the (endpoint x kernel status x response shape x delivery) matrix against a stub kernel, plus property-based differential testing (rapid) of HTTP vs gRPC request translation",
-                text="Part 1 enumerates completely, on every run, every endpoint of both protocols x every StatusCode constant (parsed from t_api/status.go at run time) x every response shape the operation's coroutine can return, delivered as response status and as t_api.Error, through the real gin handler and the real gRPC service methods: no panic / dropped reply, HTTP code = status/100 with a parsable error body carrying the status, gRPC OK message or the documented code class, outcome flags consistent with the status. Part 2 generates well-formed requests in both protocols and requires the same t_api.Request to reach the kernel. Found F5 (statuses missing from tables; released flag), repaired.",
+                text="Part 1 enumerates completely, on every run, every endpoint of both protocols x every StatusCode constant (parsed from t_api/status.go at run time) x every response shape the operation's coroutine can return, delivered as response status and as t_api.Error, through the real gin handler and the real gRPC service methods: no panic / dropped reply, HTTP code = status/100 with a parsable error body carrying the status, gRPC OK message or the documented code class, outcome flags consistent with the status. Part 2 generates well-formed requests in both protocols and requires the same t_api.Request to reach the kernel, including the link forms GET /tasks/{claim,complete,heartbeat}/:id/:counter against the spelled-out gRPC request with the HTTP front end configured with task frequencies from 1 ms to 90 min. Found F5 (statuses missing from tables; released flag), repaired.",
                 note="The stub kernel stands in for the coroutines: only shapes taken from their return sites are delivered (never a 201 claim without task, which the kernel asserts away). The gRPC methods are called directly (hook NewVerifServer), not through a network listener; proto marshalling is exercised by the proc engine (C13/C20)."),
     "C16": dict(engine="storepbt", category="exploration", design="§5 C16",
                 technique="model-based property testing (rapid): real sqlite store vs an executable in-memory reference model, metamorphic batch-vs-single relation, driver-level fault injection enumerated over every statement position",
-                text="Generated sequences of batches of transactions of all 27 command kinds (tiny argument pools, realistic and tiny times, guard lists with repeated and reordered states) through store.Process on the real sqlite store. Oracle: reference model of the five tables (every Result, every table after every Execute through a second connection; validity predicates for unordered reads); batch vs one-transaction-per-batch equality; an injected failure at EVERY statement position and at commit (wrapping database/sql driver) and natural errors must fail every submission and leave the pre-batch tables; at every statement boundary another connection still sees the pre-batch tables.",
+                text="Generated sequences of batches of transactions of all 27 command kinds (tiny argument pools incl. task ids a later create-with-task derives, realistic and tiny times, guard lists with repeated and reordered states) through store.Process on the real sqlite store. Oracle: reference model of the five tables (every Result, every table after every Execute through a second connection; validity predicates for unordered reads); batch vs one-transaction-per-batch equality; an injected failure at EVERY statement position and at commit (wrapping database/sql driver) and natural errors must fail every submission and leave the pre-batch tables; at every statement boundary another connection still sees the pre-batch tables.",
                 note="Trusted base: the reference model (≈450 lines, written from the statement plus the rule that a CompleteTasks following a no-op UpdatePromise of the same promise in the same transaction is skipped — the F19 repair); SQLite itself; the hook sqlite.NewVerif that injects the instrumented connection. sort_id is compared as an order only."),
     "C17": dict(engine="storepbt", category="exploration", design="§5 C17",
                 technique="differential property testing (rapid): the real postgres.go code path executed through a dialect-translating driver (pgsim) vs the sqlite backend and the reference model",
